@@ -91,10 +91,10 @@ fn sweep<C: BitRepr>(rep: &Report, local: &mut Local, c: &C, t: &Target) {
             }
         }
     };
-    for flavour in [Flavour::Minimal, Flavour::Full, Flavour::BytesOnly, Flavour::Transient] {
+    for flavour in [Flavour::Minimal, Flavour::Full, Flavour::BytesOnly, Flavour::Transient, Flavour::MinimalTransient] {
         // number of operations of a full write
         let n_ops = match flavour {
-            Flavour::Minimal => {
+            Flavour::Minimal | Flavour::MinimalTransient => {
                 let mut s = MinimalFailing(FailingSink::new(usize::MAX, flavour));
                 let _ = panicx::catch(|| c.write(&mut s).is_ok());
                 s.0.ops
@@ -112,9 +112,14 @@ fn sweep<C: BitRepr>(rep: &Report, local: &mut Local, c: &C, t: &Target) {
             let w = (t.case.weight() * 10 + k as u64).min(u64::MAX / 2);
             // (write result as a class string, accepted bits, calls after the failure)
             let (res, accepted, after): (Result<Result<(), String>, panicx::PanicRec>, Vec<bool>, usize) = match flavour {
-                Flavour::Minimal => {
+                Flavour::Minimal | Flavour::MinimalTransient => {
                     let mut s = MinimalFailing(FailingSink::new(k, flavour));
                     let r = panicx::catch(|| classify(c.write(&mut s)));
+                    if let Some(cv) = &s.0.contract_violation {
+                        local.outcome("sink_contract_broken");
+                        rep.violation_conclusive(&format!("sink_contract|{}|{flavour:?}", t.what), &format!("{}: after the sink failed on operation {k} of {n_ops} ({flavour:?}) the library called it outside the trait's contract: {cv}", t.what), tj(), w);
+                        continue;
+                    }
                     (r, s.0.inner.bits, s.0.calls_after_failure)
                 }
                 _ => {
